@@ -433,10 +433,10 @@ static const struct suite suites[] = {
         { "AES-ECB-192-DEC", IMB_CIPHER_ECB, IMB_AUTH_NULL, 24, DEC, 16, 0, 16 },
         { "AES-ECB-256-ENC", IMB_CIPHER_ECB, IMB_AUTH_NULL, 32, ENC, 16, 0, 16 },
         { "AES-ECB-256-DEC", IMB_CIPHER_ECB, IMB_AUTH_NULL, 32, DEC, 16, 0, 16 },
-        { "AES-CFB-128-ENC", IMB_CIPHER_CFB, IMB_AUTH_NULL, 16, ENC, 1, 0, 1 },
-        { "AES-CFB-128-DEC", IMB_CIPHER_CFB, IMB_AUTH_NULL, 16, DEC, 1, 0, 1 },
-        { "AES-CFB-256-ENC", IMB_CIPHER_CFB, IMB_AUTH_NULL, 32, ENC, 1, 0, 1 },
-        { "AES-CFB-256-DEC", IMB_CIPHER_CFB, IMB_AUTH_NULL, 32, DEC, 1, 0, 1 },
+        { "AES-CFB-128-ENC", IMB_CIPHER_CFB, IMB_AUTH_NULL, 16, ENC, 16, 0, 16 },
+        { "AES-CFB-128-DEC", IMB_CIPHER_CFB, IMB_AUTH_NULL, 16, DEC, 16, 0, 16 },
+        { "AES-CFB-256-ENC", IMB_CIPHER_CFB, IMB_AUTH_NULL, 32, ENC, 16, 0, 16 },
+        { "AES-CFB-256-DEC", IMB_CIPHER_CFB, IMB_AUTH_NULL, 32, DEC, 16, 0, 16 },
         { "AES-CBCS-1-9-ENC", IMB_CIPHER_CBCS_1_9, IMB_AUTH_NULL, 16, ENC, 16, 0, 16 },
         { "AES-CBCS-1-9-DEC", IMB_CIPHER_CBCS_1_9, IMB_AUTH_NULL, 16, DEC, 16, 0, 16 },
         { "DOCSIS-SEC-128-ENC", IMB_CIPHER_DOCSIS_SEC_BPI, IMB_AUTH_NULL, 16, ENC, 1, 0, 1 },
@@ -874,10 +874,13 @@ account(IMB_JOB *job)
                 return;
         n_jobs_done++;
         if (job->status != IMB_STATUS_COMPLETED) {
+                static const char *last;
+
                 n_bad_status++;
-                if (n_bad_status <= 20)
+                if (last != cur_suite)
                         fprintf(stderr, "k4: WARN job status %d suite=%s variant=%s\n", (int) job->status, cur_suite,
                                 cur_variant);
+                last = cur_suite;
         }
 }
 
@@ -895,10 +898,13 @@ submit_n(IMB_MGR *mgr, const struct suite *s, unsigned n, unsigned *slot_ctr)
                 fill_job(job, s, sl, pick_len(s, i), i);
                 r = (IMB_JOB *) T1("IMB_SUBMIT_JOB", mgr->submit_job, mgr);
                 if (r == NULL && imb_get_errno(mgr) != 0) {
+                        static const char *last;
+
                         n_bad_status++;
-                        if (n_bad_status <= 20)
+                        if (last != cur_suite)
                                 fprintf(stderr, "k4: WARN submit error %d (%s) suite=%s variant=%s\n", imb_get_errno(mgr),
                                         imb_get_strerror(imb_get_errno(mgr)), cur_suite, cur_variant);
+                        last = cur_suite;
                 }
                 account(r);
                 (void) T1("IMB_QUEUE_SIZE", mgr->queue_size, mgr);
@@ -1115,12 +1121,13 @@ run_direct(IMB_MGR *mgr)
         T2("kasumi_init_f9_key_sched", mgr->kasumi_init_f9_key_sched, key, sched);
         T4("kasumi_f9_1_buffer", mgr->f9_1_buffer, sched, in, 100, tag);
         /* QUIC helpers */
-        T4("aes_ecb_128_quic", mgr->aes_ecb_128_quic, in, ek, out, 4);
-        T4("aes_ecb_256_quic", mgr->aes_ecb_256_quic, in, ek, out, 4);
         {
                 const void *srcs[4] = { in, in + 16, in + 32, in + 48 };
                 void *dsts[4] = { out, out + 16, out + 32, out + 48 };
 
+                T4("aes_ecb_128_quic", mgr->aes_ecb_128_quic, srcs, ek, dsts, 4);
+                T4("aes_ecb_256_quic", mgr->aes_ecb_256_quic, srcs, ek, dsts, 4);
+                T6("imb_quic_hp_aes_ecb", imb_quic_hp_aes_ecb, mgr, ek, dsts, srcs, 4, IMB_KEY_128_BYTES);
                 T4("chacha20_hp_quic", mgr->chacha20_hp_quic, key, srcs, dsts, 4);
         }
         T2("imb_clear_mem", imb_clear_mem, out, sizeof(out));
